@@ -52,12 +52,16 @@ func runC42(c *Ctx) {
 		}
 	}
 	lc := NewLockCtx(c.P, scope)
-	checkGuarded(c, lc, scope, GuardSpec{Type: pkgFuture + ":Future", Mutex: "mu", Fields: []string{"value", "callback", "completed"}})
+	checkGuarded(c, lc, scope, GuardSpec{Type: pkgFuture + ":Future", Mutex: "mu", Fields: []string{"*"}})
 	c.Floor("guarded", 7)
 
-	completedF := c.P.FieldVar(pkgFuture+":Future", "completed")
+	completedF := c.P.FieldVarLike(pkgFuture+":Future", "completed", "bool")
 	valueF := c.P.FieldVar(pkgFuture+":Future", "value")
-	cbF := c.P.FieldVar(pkgFuture+":Future", "callback")
+	cbF := c.P.FieldVarLike(pkgFuture+":Future", "callback", "[]func(")
+	cbName := "callback"
+	if cbF != nil {
+		cbName = cbF.Name()
+	}
 	isFieldLoad := func(v ssa.Value, fv interface{}) bool {
 		ld, ok := v.(*ssa.UnOp)
 		if !ok || ld.Op != token.MUL {
@@ -126,16 +130,21 @@ func runC42(c *Ctx) {
 	} else {
 		c.Analysed(ta)
 		var imm, app ssa.Instruction
-		eachInstr(ta, func(in ssa.Instruction) {
-			if cc := callOf(in); cc != nil {
-				if p, ok := cc.Value.(*ssa.Parameter); ok && p.Name() == ta.Params[1].Name() {
-					imm = in
+		taParts, taRestore := boundParts(ta, 1)
+		defer taRestore()
+		for _, part := range taParts {
+			c.Analysed(part)
+			eachInstr(part, func(in ssa.Instruction) {
+				if cc := callOf(in); cc != nil {
+					if _, isP := cc.Value.(*ssa.Parameter); isP && strip(cc.Value) == ssa.Value(ta.Params[1]) {
+						imm = in
+					}
 				}
-			}
-			if st, ok := storeTo(in, "callback"); ok {
-				app = st
-			}
-		})
+				if st, ok := storeTo(in, "callback"); ok {
+					app = st
+				}
+			})
+		}
 		ok := imm != nil && app != nil
 		detail := "ThenAccept must call the callback immediately (completed) or append it (not completed), never both or neither"
 		if ok {
@@ -147,12 +156,12 @@ func runC42(c *Ctx) {
 				ok = derivesFrom(app.(*ssa.Store).Val, 6, func(v ssa.Value) bool { return v == ta.Params[1] })
 			}
 			// immediate call gets the stored value
-			if ok && !isFieldLoad(imm.(ssa.CallInstruction).Common().Args[0], "value") {
+			if ok && !isFieldLoad(strip(imm.(ssa.CallInstruction).Common().Args[0]), "value") {
 				ok, detail = false, "a callback registered after completion must receive the completed value"
 			}
 		}
 		c.CheckAt("accept-exclusive", "call-xor-append@ThenAccept", c.P.Pos(ta.Pos()), ok, detail)
-		checkRegisterDecidedUnderLock(c, lc, ta)
+		checkRegisterDecidedUnderLock(c, lc, ta, cbName)
 	}
 	if tc == nil {
 		c.Undecided("anchor", "future.ThenCompose", "not found")
@@ -168,7 +177,21 @@ func runC42(c *Ctx) {
 					depth++
 				}
 				args := ci.Common().Args
-				good := depth == 2 && len(fn.Params) == 1 && args[len(args)-1] == fn.Params[0]
+				// the completing closure is a one-argument callback that passes its argument on, and it is
+				// not the closure registered on f itself (that one only sees f's value, not the inner one)
+				registeredOnF := false
+				if fn.Parent() != nil {
+					eachInstr(fn.Parent(), func(x ssa.Instruction) {
+						rc := callOf(x)
+						if rc == nil || methodName(rc) != "ThenAccept" || len(rc.Args) < 2 {
+							return
+						}
+						if mc, isMC := rc.Args[len(rc.Args)-1].(*ssa.MakeClosure); isMC && mc.Fn == ssa.Value(fn) && strip(rc.Args[0]) == ssa.Value(tc.Params[0]) {
+							registeredOnF = true
+						}
+					})
+				}
+				good := depth >= 1 && !registeredOnF && len(fn.Params) == 1 && args[len(args)-1] == fn.Params[0]
 				if !good {
 					okAll = false
 				}
@@ -202,7 +225,16 @@ func runC42Complete(c *Ctx, cp *ssa.Function, completedEdge func(bool) EdgePred,
 	c.Analysed(cp)
 	var valSt, flagSt *ssa.Store
 	var cbCalls []ssa.Instruction
-	eachInstr(cp, func(in ssa.Instruction) {
+	// Complete and the helper its body may have moved into (completeLocked(value)), parameters bound
+	cpParts, cpRestore := boundParts(cp, 1)
+	defer cpRestore()
+	eachCP := func(f func(ssa.Instruction)) {
+		for _, part := range cpParts {
+			c.Analysed(part)
+			eachInstr(part, f)
+		}
+	}
+	eachCP(func(in ssa.Instruction) {
 		if st, ok := storeTo(in, "value"); ok {
 			valSt = st
 		}
@@ -235,9 +267,64 @@ func runC42Complete(c *Ctx, cp *ssa.Function, completedEdge func(bool) EdgePred,
 		c.Check("complete-sets-flag", "completed=true@Complete", flagSt, ok && v, "Complete must set completed to true")
 		// on every path from the value store to exit the flag is set
 		if valSt != nil {
-			miss, _ := MayReachExitWithout(valSt, func(in ssa.Instruction) bool { return in == flagSt })
+			miss := false
+			if valSt.Parent() == flagSt.Parent() {
+				miss, _ = MayReachExitWithout(valSt, func(in ssa.Instruction) bool { return in == flagSt })
+			} else {
+				miss = true
+			}
 			c.Check("complete-sets-flag", "flag-on-every-path@Complete", flagSt, !miss, "a path stores the value without setting completed (callbacks registered later would never run)")
 		}
+	}
+	// the decision "not completed yet" and the stores that make it completed are one critical section:
+	// if the mutex is released in between (value stored, callbacks run unlocked, flag set afterwards), a
+	// ThenAccept in that window registers on a list that was already drained (runs 0 times) and a second
+	// Complete still sees !completed and overwrites the value.
+	if valSt != nil && flagSt != nil {
+		var tests []ssa.Instruction
+		for _, e := range IfEdges(cp) {
+			cond, truth := e.Cond()
+			if completedEdge(false)(e, cond, truth) {
+				tests = append(tests, lastInstr(e.From))
+			}
+		}
+		isTest := func(x ssa.Instruction) bool {
+			for _, t := range tests {
+				if t == x {
+					return true
+				}
+			}
+			return false
+		}
+		isMuOp := func(x ssa.Instruction) bool {
+			if _, isDefer := x.(*ssa.Defer); isDefer {
+				return false
+			}
+			if cc := callOf(x); cc != nil {
+				if _, k, ok := lockOp(cc); ok && (k == "Unlock" || k == "Lock" || k == "RUnlock" || k == "RLock") {
+					return true
+				}
+			}
+			return false
+		}
+		ms := NewMustSince(cp, isTest, isMuOp)
+		atomicOK := len(tests) > 0
+		for _, st := range []*ssa.Store{flagSt, valSt} {
+			at := liftTo(cp, st)
+			if at == nil || !ms.At(at) {
+				atomicOK = false
+			}
+			if st.Parent() != cp {
+				// inside a helper: it must not touch the mutex itself
+				eachInstr(st.Parent(), func(x ssa.Instruction) {
+					if isMuOp(x) {
+						atomicOK = false
+					}
+				})
+			}
+		}
+		c.Check("complete-atomic", "test-and-set-one-section@Complete", flagSt, atomicOK,
+			"the mutex is released between testing !completed and storing the value / setting completed=true: a ThenAccept or a second Complete in that window sees a future that has a value but is not completed (callback lost, or value overwritten)")
 	}
 	if len(cbCalls) == 0 {
 		c.Undecided("complete-once", "callback-loop@Complete", "no call of registered callbacks found")
@@ -246,7 +333,7 @@ func runC42Complete(c *Ctx, cp *ssa.Function, completedEdge func(bool) EdgePred,
 		g, n := MustCross(cb, completedEdge(false))
 		c.Check("complete-once", "callback-loop@Complete", cb, g && n > 0, "callbacks must run only on the first completion")
 		args := cb.(ssa.CallInstruction).Common().Args
-		okArg := len(args) == 1 && (args[0] == cp.Params[1] || isFieldLoad(args[0], "value"))
+		okArg := len(args) == 1 && (strip(args[0]) == ssa.Value(cp.Params[1]) || isFieldLoad(strip(args[0]), "value"))
 		c.Check("complete-value", "callback-arg@Complete", cb, okArg, "callbacks must receive the completing value")
 	}
 }
